@@ -276,6 +276,14 @@ def strip_outside(text):
 def check_roundtrip(c):
     obj = build(c["t"])
     o = c["o"]
+    if c.get("after_debug"):
+        # the same process has printed the same tree with the debug convention before (n0debug / n0pretty):
+        # state kept between calls (a cache keyed by the text only) must not leak into the JSON export
+        from n0struct import n0pretty
+
+        core.call(n0pretty, obj)
+        core.call(n0pretty, obj, json_convention=False, pairs_in_one_line=True)
+        core.call(obj.to_json, json_convention=False)
     r = core.call(obj.to_json, **opts_kw(o))
     if r[0] != "ok":
         return {"to_json_raised": r[1]}
@@ -536,6 +544,12 @@ def run(ctx):
                 t = {"D": "n", "kv": [["a", 1], ["b", e1], ["c", {"L": "n", "xs": [{"D": "n", "kv": []}, {"D": "n", "kv": [["k", 1]]}]}]]}
             empties.append(t)
     empties += [{"D": "n", "kv": []}, {"L": "n", "xs": []}]
+
+    # ---- C0 (first thing in the process, before any JSON export has run): the statement for trees the debug
+    # printer has shown before -- state kept between calls (caches keyed by the text only) would leak here
+    ro0 = ctx.rng("after_debug")
+    adcases = [{"t": t, "o": gen_opts(ro0), "after_debug": True} for t in fam + trees[: ctx.budget(400, 5000)]]
+    ctx.evaluate("roundtrip/after_debug", adcases, check_roundtrip, in_known=in_known_eval)
 
     # ---- B0: primitives
     rs = ctx.rng("esc")
